@@ -164,6 +164,11 @@ fn obs_row<S: UnwindContextStorage<usize>>(row: &UnwindTableRow<usize, S>, probe
     ObsRow { row: r, entries: n, register_mismatch: bad }
 }
 
+/// A gimli row as a model row (used by C05 for `unwind_info_for_address` results).
+pub fn obs_row_pub<S: UnwindContextStorage<usize>>(row: &UnwindTableRow<usize, S>) -> Row {
+    row_from_gimli(row).0
+}
+
 pub fn observe_rows<'a, Sec, S>(sec: &Sec, bases: &BaseAddresses, fde: &FrameDescriptionEntry<Rd<'a>>, uctx: &mut UnwindContext<usize, S>, probe: &[u16], max_rows: usize) -> Obs
 where
     Sec: UnwindSection<Rd<'a>>,
@@ -323,7 +328,7 @@ impl Prog {
         if self.kind == Kind::EhFrame {
             items.push(Item::ZeroLength { fmt64: false });
         }
-        SectionSpec { kind: self.kind, le: self.le, addr_size: self.addr_size, aarch64: self.aarch64, bases: self.bases, items }
+        SectionSpec { kind: self.kind, le: self.le, addr_size: self.addr_size, aarch64: self.aarch64, bases: self.bases, raw_pointers: false, items }
     }
     pub fn json(&self, built: &Built) -> Value {
         json!({
